@@ -33,6 +33,18 @@ Qed.
 Lemma words_nospace : forall s, nospace s = true -> sempty s = false -> words s = [s].
 Proof. intros s Hn He. unfold words. rewrite words_go_nospace; simpl; auto. Qed.
 
+(* a name that survives the header: not empty, equal to its words joined by
+   single blanks (no leading / trailing / repeated blanks, no tabs) and not
+   containing the footprint of the column-names line.  Names may contain
+   blanks. *)
+Definition name_ok (s : string) : Prop :=
+  sempty s = false /\ unwords (words s) = s /\ contains fp_orix s = false.
+
+Lemma name_ok_words : forall s, name_ok s -> words s <> [].
+Proof.
+  intros s [He [Hw _]] E. rewrite E in Hw. simpl in Hw. subst s. discriminate.
+Qed.
+
 (* ---------------------------------------------------------------- footprint *)
 Lemma is_prefix_fp_nospace : forall s, nospace s = true -> is_prefix fp_orix s = false.
 Proof.
@@ -86,6 +98,34 @@ Proof.
   cbn [contains]. apply orb_true_iff. left.
   cbn [append is_prefix]. repeat rewrite Ascii.eqb_refl. simpl andb. exact H.
 Qed.
+
+(* plain identifiers (the guard of the theorem before the reader's "Formula"
+   line was repaired) are such names *)
+Lemma nospace_name_ok : forall s, nospace s = true -> sempty s = false -> name_ok s.
+Proof.
+  intros s Hn He. split; [exact He|]. split.
+  - rewrite (words_nospace s Hn He). reflexivity.
+  - apply contains_fp_nospace. exact Hn.
+Qed.
+
+(* ---------------------------------------------------------------- raw_step on the lines of a block *)
+Lemma raw_step_material : forall a s, words s <> [] ->
+  raw_step a (LMaterial s) =
+  {| rw_ids := rw_ids a; rw_names := rw_names a ++ [unwords (words s)]; rw_formulas := rw_formulas a;
+     rw_pgs := rw_pgs a; rw_lats := rw_lats a |}.
+Proof. intros a s H. unfold raw_step. destruct (words s); [congruence | reflexivity]. Qed.
+
+Lemma raw_step_formula : forall a s, words s <> [] ->
+  raw_step a (LFormula s) =
+  {| rw_ids := rw_ids a; rw_names := rw_names a; rw_formulas := rw_formulas a ++ [unwords (words s)];
+     rw_pgs := rw_pgs a; rw_lats := rw_lats a |}.
+Proof. intros a s H. unfold raw_step. destruct (words s); [congruence | reflexivity]. Qed.
+
+Lemma raw_step_symmetry : forall a s, words s = [s] ->
+  raw_step a (LSymmetry s) =
+  {| rw_ids := rw_ids a; rw_names := rw_names a; rw_formulas := rw_formulas a;
+     rw_pgs := rw_pgs a ++ [s]; rw_lats := rw_lats a |}.
+Proof. intros a s H. unfold raw_step. rewrite H. reflexivity. Qed.
 
 (* ---------------------------------------------------------------- find / fold *)
 Lemma find_app_none : forall {A} (f : A -> bool) l1 l2, (forall x, In x l1 -> f x = false) ->
@@ -153,9 +193,9 @@ Qed.
 Definition numbered (m : cmapT) : list (nat * (Z * @phase T)) :=
   combine (seq 0 (length (real_phases m))) (real_phases m).
 
-(* hypothesis on phase names: non-empty, no blanks (plain identifiers) *)
+(* hypothesis on phase names: non-empty, words separated by single blanks *)
 Definition names_plain (m : cmapT) : Prop :=
-  forall kv, In kv (real_phases m) -> sempty (ph_name (snd kv)) = false /\ nospace (ph_name (snd kv)) = true.
+  forall kv, In kv (real_phases m) -> name_ok (ph_name (snd kv)).
 
 Definition conv (x : nat * (Z * @phase T)) : Z * rphase :=
   (Z.of_nat (S (fst x)),
@@ -174,14 +214,16 @@ Definition raw_add (a : raw_phases) (x : nat * (Z * @phase T)) : raw_phases :=
      rw_lats := rw_lats a ++ [map prt3 (ph_lat (snd (snd x)))] |}.
 
 Definition entry_ok (x : nat * (Z * @phase T)) : Prop :=
-  words (shown_name (fst x) (snd (snd x))) = [shown_name (fst x) (snd (snd x))]
+  unwords (words (shown_name (fst x) (snd (snd x)))) = shown_name (fst x) (snd (snd x))
+  /\ words (shown_name (fst x) (snd (snd x))) <> []
   /\ words (shown_pg (snd (snd x))) = [shown_pg (snd (snd x))].
 
 Lemma raw_block : forall a x, entry_ok x ->
   fold_left raw_step (block_of (fst x) (snd (snd x))) a = raw_add a x.
 Proof.
-  intros a x [Hn Hp]. unfold block_of. simpl. rewrite Hn. rewrite Hp.
-  destruct a. unfold raw_add. simpl. reflexivity.
+  intros a x [Hn [Hne Hp]]. unfold block_of. cbn [fold_left].
+  rewrite (raw_step_material _ _ Hne), (raw_step_formula _ _ Hne), (raw_step_symmetry _ _ Hp).
+  rewrite Hn. destruct a. unfold raw_add. reflexivity.
 Qed.
 
 Lemma raw_blocks : forall L a, (forall x, In x L -> entry_ok x) ->
